@@ -568,3 +568,16 @@ package http
 //@     requires false
 //@   callee FormValue(k) (v)
 //@     requires false
+
+// Start (C11, "concurrent requests never mix"): the free list of source ids starts empty
+// and the id counter at its zero value - the representation invariant of the list
+// (distinct ids below sourceSeq) holds before the first request can take the lock.  A
+// list that starts with entries (e.g. make(..., n) for make(..., 0, n)) hands the same
+// id to requests in flight at the same time: their lines interleave under one source.
+
+//@ func (*Plugin).Start
+//@   option allow-exit yes
+//@   option allow-panic yes
+//@   option constructor yes
+//@   requires params != nil && typeis(config, "*github.com/ozontech/file.d/plugin/input/http.Config")
+//@   ensures len(p.sourceIDs) == 0
